@@ -188,6 +188,12 @@ Definition build_sim (env : Env) (t0 delta : Z) (vs : list Vehicle) (ss : list S
   let s := fold_left (fun a x => unwrap a (add_base env a x)) bs s in
   fold_left (fun a x => unwrap a (add_request env a x)) rs s.
 
+(* the same, with applied_instructions: used to re-synchronise the model with the implementation's state in the
+   middle of a case (numeric knife-edge rule, DESIGN §2.4) *)
+Definition build_sim_at (env : Env) (t0 delta : Z) (vs : list Vehicle) (ss : list Station) (bs : list Base) (rs : list Request)
+           (ap : list Instr) : Sim :=
+  (build_sim env t0 delta vs ss bs rs) <| applied := fold_left (fun m i => PM.add (instr_vid i) i m) ap (PM.empty _) |>.
+
 (* extended alphabet: raw simulation_state_ops entry points (C08) *)
 Inductive XOp :=
 | XStep (o : Op)
